@@ -11,10 +11,13 @@ impl<'b> core::convert::TryFrom<&'b str> for ClusterName {
     #[verifier::external_body] fn try_from(s: &'b str) -> Result<Self, InvalidClusterName> { unimplemented!() }
 }
 impl Clone for ClusterName { #[verifier::external_body] fn clone(&self) -> (r: Self) ensures r == *self { unimplemented!() } }
-#[verifier::external_type_specification] #[verifier::external_body] pub struct ExNonZeroUsize(core::num::NonZeroUsize);
-pub assume_specification[ core::num::NonZeroUsize::new ](n: usize) -> (r: Option<core::num::NonZeroUsize>) ensures r is Some <==> n != 0;
-pub open spec fn chunks_registered(s: MetaStore, chunks: Seq<ChunkStore>) -> bool {
-    forall|c: int, k: int| 0 <= c < chunks.len() && 0 <= k < 2 ==> s.all_proxies@.contains_key(#[trigger] chunks[c].proxy_addresses[k])
+#[verifier::external_body] pub struct NonZeroUsize { x: usize }   // std::num::NonZeroUsize, opaque
+impl NonZeroUsize { #[verifier::external_body] fn new(n: usize) -> (r: Option<NonZeroUsize>) ensures r is Some <==> n != 0 { unimplemented!() } }
+pub open spec fn resources_registered(s: MetaStore, arr: Seq<[ProxyResource; CHUNK_PARTS]>) -> bool {
+    forall|c: int, k: int| 0 <= c < arr.len() && 0 <= k < 2 ==> s.all_proxies@.contains_key(#[trigger] arr[c][k].proxy_address)
+}
+pub open spec fn chunks_registered(dom: Set<String>, chunks: Seq<ChunkStore>) -> bool {
+    forall|c: int, k: int| 0 <= c < chunks.len() && 0 <= k < 2 ==> dom.contains(#[trigger] chunks[c].proxy_addresses[k])
 }
 '''
 
@@ -26,18 +29,22 @@ def build(U):
     U.add('impl MetaStore {\n')
     U.add_fn(takeover.bump_global_epoch(U))
     U.add("}\n" + takeover.UPDATE_STRUCT + "impl<'a> MetaStoreUpdate<'a> {\n")
-    U.add('''    // allocator: out of reach (nested HashMap<String, ..> with max_by_key / min_by closures, see C12); assumed: pure
-    #[verifier::external_body] fn generate_free_chunks(&self, expected_num: core::num::NonZeroUsize) -> (r: Result<Vec<[ProxyResource; CHUNK_PARTS]>, MetaStoreError>) { unimplemented!() }
-    #[verifier::external_body] fn generate_free_chunks_for_ordered_proxy_index(&self, expected_num: core::num::NonZeroUsize, start_index: usize) -> (r: Result<Vec<[ProxyResource; CHUNK_PARTS]>, MetaStoreError>) { unimplemented!() }
-    // FnMut closure over the resources: assumed to name only proxies that generate_free_chunks returned, which are registered
+    U.add('''    // allocator: out of reach (nested HashMap<String, ..> with max_by_key / min_by closures, see C12); assumed: pure (&self) and
+    // returns only registered proxies
+    #[verifier::external_body] fn generate_free_chunks(&self, expected_num: NonZeroUsize) -> (r: Result<Vec<[ProxyResource; CHUNK_PARTS]>, MetaStoreError>)
+        ensures r matches Ok(v) ==> resources_registered(*old(self.store), v@)
+    { unimplemented!() }
+    #[verifier::external_body] fn generate_free_chunks_for_ordered_proxy_index(&self, expected_num: NonZeroUsize, start_index: usize) -> (r: Result<Vec<[ProxyResource; CHUNK_PARTS]>, MetaStoreError>)
+        ensures r matches Ok(v) ==> resources_registered(*old(self.store), v@)
+    { unimplemented!() }
+    // FnMut closure over the slot cursor: out of reach; assumed (read off the code): chunk c names the two proxies of resource c
     #[verifier::external_body] fn proxy_resource_to_chunk_store(proxy_resource_arr: Vec<[ProxyResource; CHUNK_PARTS]>, with_slots: bool) -> (r: Vec<ChunkStore>)
-        ensures forall|s: MetaStore| #[trigger] chunks_registered(s, r@)
+        ensures r@.len() == proxy_resource_arr@.len(), forall|c: int, k: int| 0 <= c < r@.len() && 0 <= k < 2 ==> #[trigger] r@[c].proxy_addresses[k] == proxy_resource_arr@[c][k].proxy_address
     { unimplemented!() }
 ''')
     X = U.src('src/broker/update.rs')
     f = X.fn('add_cluster')
     f.r1_logging().r2_closure_underscore()
-    f.replace('R-path', 'NonZeroUsize::new(', 'core::num::NonZeroUsize::new(', count=1)
     f.header('''    pub fn add_cluster(
         &mut self,
         cluster_name: String,
@@ -50,7 +57,21 @@ def build(U):
             r is Err ==> store_same(*old(self).store, *final(self).store),
             r is Ok ==> exists|k: ClusterName| #![trigger final(self).store.clusters@[k]] !old(self).store.clusters@.contains_key(k) && final(self).store.clusters@.contains_key(k)
                 && final(self).store.clusters@[k].epoch == final(self).store.global_epoch && final(self).store.clusters@[k].config == default_cluster_config,''')
+    f.after('let chunk_stores = Self::proxy_resource_to_chunk_store(proxy_resource_arr, true);',
+            "        proof { assert(chunks_registered(self.store.all_proxies@.dom(), chunk_stores@)); }")
+    f.after('let epoch = self.store.bump_global_epoch();', "        let ghost s1 = *self.store;\n        let ghost cn = cluster_name;")
+    INV = ("self.store.all_proxies@.dom() == s1.all_proxies@.dom(), self.store.clusters@ == s1.clusters@, self.store.global_epoch == s1.global_epoch,\n"
+           "                    self.store.failed_proxies@ == s1.failed_proxies@, self.store.failures@ == s1.failures@, self.store.version == s1.version,\n"
+           "                    chunks_registered(s1.all_proxies@.dom(), cluster_store.chunks@), vstd::std_specs::hash::obeys_key_model::<String>(),")
+    f.loop_spec(0, "                invariant " + INV, itname='itc')
+    f.loop_spec(1, "                    invariant " + INV + "\n                    0 <= itc.index@ < cluster_store.chunks@.len(), *chunk == cluster_store.chunks@[itc.index@ as int],", itname='itp')
+    f.before('let proxy = self', "                proof { axiom_key_of_same::<String>(proxy_address); assert(*proxy_address == chunk.proxy_addresses[itp.index@ as int]); }")
+    f.before('Ok(())', "        proof { assert(self.store.clusters@.contains_key(cn)); assert(!old(self).store.clusters@.contains_key(cn)); assert(self.store.clusters@[cn].epoch == self.store.global_epoch); assert(self.store.clusters@[cn].config == default_cluster_config); }", nth=None)
     U.add_fn(f)
     U.add("}\n} // verus!\nfn main() {}\n")
-    U.trust('generate_free_chunks* (allocator, C12) and proxy_resource_to_chunk_store by assumed contracts: pure / name only registered proxies',
-            'NonZeroUsize::new by assume_specification (Some iff n != 0)')
+    U.trust('generate_free_chunks* (allocator, C12) by assumed contract: pure, returns only registered proxies; proxy_resource_to_chunk_store by assumed contract (chunk c names the proxies of resource c; FnMut closure out of reach)',
+            'NonZeroUsize::new by shim (Some iff n != 0)')
+
+MUST_FAIL = '''
+proof fn must_fail_add_cluster_resources_any(s: MetaStore, arr: Seq<[ProxyResource; CHUNK_PARTS]>) requires arr.len() > 0 ensures resources_registered(s, arr) { }
+'''
